@@ -154,7 +154,9 @@ def run(ctx):
         n = len(c["syms"])
         atoms = mk(c)
         sel_kind = rng.choice(["none", "lists", "overlap", "disjoint", "empty", "sel"])
-        if sel_kind == "none":
+        if t % 5 == 3 and n >= 2:
+            si, sj = rng.sample(range(n), rng.randint(1, n - 1)), None          # sel_j left at its default: the same atoms as sel_i
+        elif sel_kind == "none":
             si, sj = None, None
         elif sel_kind == "empty":
             si, sj = rng.sample(range(n), rng.randint(0, n)), []
